@@ -113,13 +113,13 @@ def _table_job(st):
         prob = _beam_model(s2, nodes, A * np.ones(ne), Iy * np.ones(ne), Iz * np.ones(ne), J * np.ones(ne), loads)
         disp = np.array(prob.get_val("disp"))
         scale = max(float(np.max(np.abs(u_glob))), 1e-30)
-        if float(np.max(np.abs(disp[tip] - u_glob))) > 1e-8 * scale:
+        if not (float(np.max(np.abs(disp[tip] - u_glob))) <= 1e-8 * scale):
             bad.append("cantilever:%s:tip_displacement" % layout)
-        if float(np.max(np.abs(disp[clamp]))) > 1e-9 * scale:
+        if not (float(np.max(np.abs(disp[clamp]))) <= 1e-9 * scale):
             bad.append("cantilever:%s:root_not_clamped" % layout)
         if layout != "half":
             other = slice(n + 1, None) if layout == "full_left" else slice(0, n)
-            if float(np.max(np.abs(disp[other]))) > 1e-9 * scale:
+            if not (float(np.max(np.abs(disp[other]))) <= 1e-9 * scale):
                 bad.append("cantilever:%s:unloaded_half_moves" % layout)
     return {"case": c, "bad": bad}
 
@@ -161,14 +161,14 @@ def _random_job(k):
     disp = np.array(prob.get_val("disp"))
     uref, K, f = ref.frame_solve(nodes, E, G, A, Iy, Iz, J, loads, clamp)
     us, rs = float(np.max(np.abs(uref[:, :3]))), float(np.max(np.abs(uref[:, 3:])))
-    if float(np.max(np.abs(disp[:, :3] - uref[:, :3]))) > 1e-8 * us or float(np.max(np.abs(disp[:, 3:] - uref[:, 3:]))) > 1e-8 * rs:
+    if not (float(np.max(np.abs(disp[:, :3] - uref[:, :3]))) <= 1e-8 * us) or not (float(np.max(np.abs(disp[:, 3:] - uref[:, 3:]))) <= 1e-8 * rs):
         bad.append("frame:displacement")
     # equilibrium residual of the code's displacements in the independent frame, on the free DOFs
     free = np.array([i for i in range(6 * ny) if i // 6 != clamp])
     res = K.dot(disp.reshape(-1))[free] - f[free]
-    if float(np.max(np.abs(res))) > 1e-7 * float(np.max(np.abs(f))):
+    if not (float(np.max(np.abs(res))) <= 1e-7 * float(np.max(np.abs(f)))):
         bad.append("frame:equilibrium_residual")
-    if float(np.max(np.abs(disp[clamp]))) > 1e-9 * us:
+    if not (float(np.max(np.abs(disp[clamp]))) <= 1e-9 * us):
         bad.append("frame:root_not_clamped")
     # linearity and Maxwell-Betti
     l2 = rng.normal(0, 1e4, size=(ny, 6))
@@ -178,10 +178,10 @@ def _random_job(k):
     prob.set_val("loads", 2.0 * loads - 3.0 * l2)
     prob.run_model()
     d3 = np.array(prob.get_val("disp"))
-    if float(np.max(np.abs(d3 - (2.0 * disp - 3.0 * d2)))) > 1e-8 * float(np.max(np.abs(d3))):
+    if not (float(np.max(np.abs(d3 - (2.0 * disp - 3.0 * d2)))) <= 1e-8 * float(np.max(np.abs(d3)))):
         bad.append("frame:not_linear")
     w12, w21 = float(np.sum(loads * d2)), float(np.sum(l2 * disp))
-    if abs(w12 - w21) > 1e-8 * max(abs(w12), abs(w21), float(np.sum(np.abs(loads * d2)))):
+    if not (abs(w12 - w21) <= 1e-8 * max(abs(w12), abs(w21), float(np.sum(np.abs(loads * d2))))):
         bad.append("frame:maxwell_betti")
     # loads of very different magnitudes in ONE load vector (all far above the 1e-6 N zeroing threshold): a light load must not
     # be lost next to a heavy one - superposition u(heavy + light) - u(heavy) = u(light), equilibrium of the lightly loaded rows
@@ -202,7 +202,7 @@ def _random_job(k):
         sl = float(np.max(np.abs(res3[2])))
         # cancellation: the difference of two responses of size |u_heavy| carries round-off ~1e-16 |u_heavy| (x conditioning)
         noise = 1e-9 * float(np.max(np.abs(res3[1])))
-        if sl > 50 * noise and float(np.max(np.abs(dl - res3[2]))) > 1e-6 * sl + noise:
+        if sl > 50 * noise and not (float(np.max(np.abs(dl - res3[2]))) <= 1e-6 * sl + noise):
             bad.append("frame:light_load_lost_next_to_heavy_load")
     # tube model: rotating structure and loads together rotates the response
     if not wingbox:
@@ -218,7 +218,7 @@ def _random_job(k):
             p2 = _beam_model(s2, n2, A, Iy, Iz, J, lr)
             dr = np.array(p2.get_val("disp"))
             pred = np.concatenate([disp[:, :3].dot(Rm.T), disp[:, 3:].dot(Rm.T)], axis=1)
-            if float(np.max(np.abs(dr[:, :3] - pred[:, :3]))) > 1e-7 * us or float(np.max(np.abs(dr[:, 3:] - pred[:, 3:]))) > 1e-7 * rs:
+            if not (float(np.max(np.abs(dr[:, :3] - pred[:, :3]))) <= 1e-7 * us) or not (float(np.max(np.abs(dr[:, 3:] - pred[:, 3:]))) <= 1e-7 * rs):
                 bad.append("frame:rotation_equivariance")
     return {"k": k, "bad": bad, "case": {"sym": sym, "ny": ny, "shape": shape, "wingbox_like": wingbox}}
 
